@@ -556,6 +556,7 @@ func cmdSymx(args []string) int {
 	fs.IntVar(&b.Unwind, "unwind", b.Unwind, "loop unwinding")
 	tmo := fs.Int("timeout", 60, "solver timeout seconds")
 	absmul := fs.Bool("absmul", false, "abstract multiplication by constants as UF first")
+	native := fs.Bool("native", false, "mode B: native go/types values")
 	fs.BoolVar(&verbose, "v", false, "verbose")
 	fs.BoolVar(&noSolve, "nosolve", false, "only list obligations")
 	fs.Parse(args)
@@ -565,7 +566,7 @@ func cmdSymx(args []string) int {
 		fmt.Fprintln(os.Stderr, err)
 		return 2
 	}
-	opts := RunOpts{Bounds: b, Workers: *workers, CrossCheck: *cross, DumpDir: *dump, Solvers: strings.Split(*solvers, ","), AbstractMul: *absmul}
+	opts := RunOpts{Bounds: b, Workers: *workers, CrossCheck: *cross, DumpDir: *dump, Solvers: strings.Split(*solvers, ","), AbstractMul: *absmul, Native: *native}
 	if *run != "" {
 		opts.Filter = regexp.MustCompile(*run)
 	}
